@@ -1132,3 +1132,54 @@ func storeUpdatesReached(r *Run, key string) map[string]bool {
 	}
 	return out
 }
+
+// ruleParallelVerdict (round-4 seeds C06-7, C01-7): the verdict of a check group is the join of the verdicts of ALL its actions.
+// runActionsParallel answers with the result of Group.Wait — which collects the error of every launched function — and every
+// launched function answers with the result of its runAction. A verdict assembled on the side (a map keyed by action name, the
+// first result on a channel) can lose a failure, or answer before the slower actions have finished.
+func ruleParallelVerdict(r *Run, rule string) {
+	fn := r.fnByKey(rule, smKey("runActionsParallel"))
+	if fn == nil {
+		return
+	}
+	fl, paths, ok := r.flowPaths(rule, fn)
+	if !ok {
+		return
+	}
+	var lits []*ast.FuncLit
+	seen := map[*ast.FuncLit]bool{}
+	for i := range paths {
+		for _, e := range paths[i].Ev {
+			if IsCall(e, keyGroupGo) {
+				if l := LitArg(e.Call); l != nil && !seen[l] {
+					seen[l] = true
+					lits = append(lits, l)
+				}
+			}
+		}
+	}
+	if len(lits) == 0 {
+		r.Unresolved(rule, "runActionsParallel launches its actions with Group.Go")
+		return
+	}
+	for _, l := range lits {
+		lf, lp, ok := r.litPaths(rule, l)
+		if !ok {
+			continue
+		}
+		n, bad, pos := propagation(lf, lp, smKey("runAction"))
+		if n == 0 {
+			bad = "the launched function does not call runAction"
+		}
+		if pos == 0 {
+			pos = l.Pos()
+		}
+		r.Check(rule, "runActionsParallel:go-literal-propagates", pos, bad == "", "%s", orOK(bad, "the launched function answers with runAction's result"))
+	}
+	n, bad, pos := propagation(fl, paths, keyGroupWait)
+	if n == 0 {
+		r.Fail(rule, "runActionsParallel:wait-result", fn.Decl.Pos(), "no Group.Wait call")
+		return
+	}
+	r.Check(rule, "runActionsParallel:wait-result", pos, bad == "", "%s", orOK(bad, "Group.Wait's error decides the group's verdict on every path"))
+}
